@@ -197,5 +197,7 @@ Inductive mop :=
 
 Inductive step :=
 | SMut (l : loc) (o : mop)        (* any mutator applied to any object *)
-| SAlloc (o : obj).               (* a new object is created (by running code) *)
+| SAlloc (o : obj)                (* a new object is created (by running code) *)
+| SCellSet (c : loc) (v : val).   (* interp.go SETLOCALCELL: a function that is still running assigns
+                                     one of its local variables that inner functions captured *)
 
